@@ -22,12 +22,14 @@ def record(ctx, binp, n, label, focus=None):
     return vlib.read_ndjson(d + "/t.ndjson")
 
 
-def judge(ctx, binp, events, what):
+def judge(ctx, binp, events, what, history=None):
+    """`history`: everything the driver process did (also the calls of the other operation that are not judged here): a
+    deviation may depend on an earlier call of either kind, so rejections are reproduced with the whole run before them."""
     bad = vlib.validate_trace(ctx, "Bech32Trace", events)
     seq = [b for b in bad if not b["in"].get("par")]
     par = [b for b in bad if b["in"].get("par")]
     # concurrent batches are reproduced as a whole batch (their trace), sequential calls one by one
-    conf = vlib.reproduce(ctx, binp, seq, history=events) + vlib.reproduce_concurrent(ctx, binp, events, par, "Bech32Trace")
+    conf = vlib.reproduce(ctx, binp, seq, history=(history if history is not None else events)) + vlib.reproduce_concurrent(ctx, binp, events, par, "Bech32Trace")
     # the unexported polymod is a white-box aid (what it returns is the implementation's business): Decode / Encode decide
     for e in vlib.settle_whitebox(ctx, conf, {"bech32.polymod"}, label="bech32"):
         ctx.bad.append(dict(event=e, reason=what))
